@@ -1,46 +1,303 @@
-"""C18  Temporal dualities and expansion laws hold in every monitor (mirror argument)."""
+"""C18  Temporal dualities and expansion laws hold in every monitor."""
 from sa.index import AnalysisError
-from sa import dispatch as D, model as M, opsum as O
-from sa.rules import mirror, opref, exh
+from sa import dispatch as D, model as M, opsum as O, window as W
+from sa.rules import mirror, opref, exh, densesum, windowrule
+from sa.rules import stackstep as SS
 from sa.props import c01, c02
+
+UNTIMED = (('Once', 'Historically'), ('Eventually', 'Always'))
+TIMED = (('TimedOnce', 'TimedHistorically'), ('TimedEventually', 'TimedAlways'))
+
+
+class _Collect(object):
+    """report proxy that keeps what a rule says instead of recording it under this property"""
+    def __init__(self, rep):
+        self._r = rep
+        self.fails = []
+        self.oks = []
+        self.errors = []
+
+    def fail(self, rule, rel, sym, slot, msg, line=None, *a, **k):
+        self.fails.append((rule, rel, sym, slot, msg, line))
+
+    def ok(self, rule, rel, sym, slot, msg='', line=None, *a, **k):
+        self.oks.append((rule, rel, sym, slot))
+
+    def undecided(self, *a, **k):
+        pass
+
+    def error(self, msg):
+        self.errors.append(msg)
+
+    def floor(self, *a, **k):
+        pass
+
+    def __getattr__(self, k):
+        return getattr(self._r, k)
+
+
+def dual_term(e):
+    """dual image of an operator-summary term: min<->max, +inf<->-inf (values only; operands stay)"""
+    if e == O.INF:
+        return O.NINF
+    if e == O.NINF:
+        return O.INF
+    if not isinstance(e, tuple) or not e:
+        return e
+    if e[0] in ('min', 'max'):
+        return O.mk('max' if e[0] == 'min' else 'min', [dual_term(a) for a in e[1]])
+    if e[0] == 'c':
+        return e
+    return (e[0],) + tuple(dual_term(a) if isinstance(a, tuple) else a for a in e[1:])
+
+
+def dual_nf(nf):
+    return (nf[0],) + tuple(dual_term(a) if isinstance(a, tuple) else a for a in nf[1:])
+
+
+def dual_window(t):
+    h = t[0]
+    if h == 'leaf':
+        fl = lambda c: None if c is None else (('c', 'inf') if c == ('c', '-inf') else ('c', '-inf') if c == ('c', 'inf') else c)
+        return ('leaf', t[1], t[2], fl(t[3]), fl(t[4]))
+    if h == 'c':
+        return ('c', 'inf') if t == ('c', '-inf') else ('c', '-inf') if t == ('c', 'inf') else t
+    if h in ('min', 'max'):
+        return W.mk('max' if h == 'min' else 'min', [dual_window(a) for a in t[1]])
+    if h == 'red':
+        return ('red', 'max' if t[1] == 'min' else 'min', t[2], t[3], t[4], dual_window(t[5]))
+    return t
+
+
+def _pair_untimed(rep, label, where, a, b, sa, sb, fallback):
+    """duality of an untimed pair on the operator summaries; syntactic mirror only when a side is not summarised"""
+    slot = '%s:%s~%s' % (label, a, b)
+    if sa is not None and sb is not None and sa[0] != 'unknown' and sb[0] != 'unknown':
+        if dual_nf(sa) == sb:
+            rep.ok('R-DUAL', where, label, slot, '%s is the dual image (min<->max, +inf<->-inf) of %s: %s' % (b, a, O.show(sb) if hasattr(O, 'show') else ''), None)
+        else:
+            rep.fail('R-DUAL', where, label, slot, 'not %s p and %s not p differ: %s is %s, the dual of %s is %s'
+                     % (a.lower(), b.lower(), b, opref.describe(sb), a, opref.describe(dual_nf(sa))))
+        return True
+    return fallback()
 
 
 def check(ix, rep):
     mons = {m.kind: m for m in M.standard_monitors(ix)}
     npairs = 0
-    for kind in ('discrete-offline', 'dense-offline'):
-        npairs += mirror.mirror_visitor_pairs(ix, rep, mons[kind])
-    for kind in ('discrete-online', 'dense-online'):
-        npairs += mirror.mirror_operation_pairs(ix, rep, mons[kind])
-    npairs += mirror.unused_operation_pairs(ix, rep)
-    rep.floor('mirror pairs compared', npairs, 13)
-    # implies = or o (not x id); since/until expansion -- on the operator summaries
+    nodes = M.node_by_name(ix)
+    # ---- reference windows are dual to each other (a fact about the checker's own table, re-validated on every run)
+    for a, b in TIMED:
+        if dual_window(W.reference(a)) != W.reference(b):
+            raise AnalysisError('reference windows of %s and %s are not dual' % (a, b))
     q = c02._Quiet(rep)
+    # ---- discrete time, offline
     off = mons['discrete-offline']
     offsum, _ = c01.opsum_offline_discrete(ix, q, off)
+    d = D.dispatch_of(ix, off.cls)
+    for a, b in UNTIMED:
+        fa, fb = mirror._handler(ix, off, d, nodes[a]), mirror._handler(ix, off, d, nodes[b])
+        if fa is None or fb is None:
+            continue
+        npairs += 1
+        rep.analysed(fa)
+        rep.analysed(fb)
+
+        def fb_(fa=fa, fb=fb, a=a, b=b):
+            mirror.compare_functions(rep, 'R-MIRROR', fa, fb, 'discrete-offline:%s~%s' % (a, b))
+            return True
+        _pair_untimed(rep, 'discrete-offline', off.visitor.module.rel, a, b, offsum.get(a), offsum.get(b), fb_)
+    col = _Collect(rep)
+    windowrule.check_offline(ix, col, off, which=('R-WINDOW',))
+    npairs += _window_pairs(rep, col, 'discrete-offline', off.visitor.module.rel)
+    # ---- discrete time, online
     on = mons['discrete-online']
     onsum = {}
-    for ncname, opc in exh.constructed_operations(ix, on).items():
+    ops = exh.constructed_operations(ix, on)
+    for ncname, opc in ops.items():
         nf, _p = O.summarize_online_discrete(opc, ix)
         onsum[ncname] = nf
+    for a, b in UNTIMED:
+        ca, cb = ops.get(a), ops.get(b)
+        if ca is None or cb is None:
+            continue      # unbounded future is rejected online: the classes that exist for it are never constructed
+        npairs += 1
+        rep.analysed(ca.methods['update'])
+        rep.analysed(cb.methods['update'])
+
+        def fb_(ca=ca, cb=cb, a=a, b=b):
+            for meth in ('__init__', 'reset', 'update'):
+                fa, fb = ca.methods.get(meth), cb.methods.get(meth)
+                if fa is not None and fb is not None:
+                    mirror.compare_functions(rep, 'R-MIRROR', fa, fb, 'discrete-online:%s~%s:%s' % (a, b, meth), sort_init=(meth == '__init__'))
+            return True
+        _pair_untimed(rep, 'discrete-online', on.visitor.module.rel, a, b, onsum.get(a), onsum.get(b), fb_)
+    col = _Collect(rep)
+    windowrule.check_online(ix, col, on, which=('R-WINDOW',))
+    npairs += _window_pairs(rep, col, 'discrete-online', on.visitor.module.rel)
+    # ---- dense time, offline
+    doff = mons['dense-offline']
+    dd = D.dispatch_of(ix, doff.cls)
+    for a, b in UNTIMED:
+        fa, fb = mirror._handler(ix, doff, dd, nodes[a]), mirror._handler(ix, doff, dd, nodes[b])
+        if fa is None or fb is None:
+            continue
+        npairs += 1
+        rep.analysed(fa)
+        rep.analysed(fb)
+        sa, _p, _t = densesum.summarize_offline_handler(ix, fa)
+        sb, _p, _t = densesum.summarize_offline_handler(ix, fb)
+
+        def fb_(fa=fa, fb=fb, a=a, b=b):
+            mirror.compare_functions(rep, 'R-MIRROR', fa, fb, 'dense-offline:%s~%s' % (a, b))
+            return True
+        _pair_untimed(rep, 'dense-offline', doff.visitor.module.rel, a, b, sa, sb, fb_)
+    m = ix.module('rtamt.semantics.stl.dense_time.offline.ast_visitor')
+    for (a, b), (ka, kb) in zip(TIMED, (('once', 'historically'), ('eventually', 'always'))):
+        npairs += 1
+        col = _Collect(rep)
+        for nn, kn in ((a, ka), (b, kb)):
+            hf = mirror._handler(ix, doff, dd, nodes[nn])
+            if hf is not None:
+                SS.check_forward(ix, col, doff.cls, hf, nn)
+            kf = m.functions.get(kn + '_timed_operation')
+            if kf is None:
+                col.error('kernel %s_timed_operation vanished' % kn)
+                continue
+            rep.analysed(kf)
+            SS.check_function(ix, col, kf, kn, slot_prefix='dense-offline:')
+            SS.check_build(ix, col, kf, kn, slot_prefix='dense-offline:')
+            SS.check_output(ix, col, kf, kn, slot_prefix='dense-offline:')
+        _kernel_pair(rep, col, 'dense-offline', doff.visitor.module.rel, a, b)
+    # ---- dense time, online
+    don = mons['dense-online']
+    dops = exh.constructed_operations(ix, don)
+    for a, b in UNTIMED:
+        ca, cb = dops.get(a), dops.get(b)
+        if ca is None or cb is None:
+            continue
+        npairs += 1
+        rep.analysed(ca.methods['update'])
+        rep.analysed(cb.methods['update'])
+        sa, _p, _t = densesum.summarize_online_operation(ix, ca)
+        sb, _p, _t = densesum.summarize_online_operation(ix, cb)
+
+        def fb_(ca=ca, cb=cb, a=a, b=b):
+            for meth in ('__init__', 'reset', 'update'):
+                fa, fb = ca.methods.get(meth), cb.methods.get(meth)
+                if fa is not None and fb is not None:
+                    mirror.compare_functions(rep, 'R-MIRROR', fa, fb, 'dense-online:%s~%s:%s' % (a, b, meth), sort_init=(meth == '__init__'))
+            return True
+        _pair_untimed(rep, 'dense-online', don.visitor.module.rel, a, b, sa, sb, fb_)
+    ca, cb = dops.get('TimedOnce'), dops.get('TimedHistorically')
+    if ca is not None and cb is not None:
+        npairs += 1
+        col = _Collect(rep)
+        for c, kn in ((ca, 'once'), (cb, 'historically')):
+            f = c.methods['update']
+            rep.analysed(f)
+            SS.check_function(ix, col, f, kn, slot_prefix='dense-online:')
+            SS.check_build(ix, col, f, kn, online=True, slot_prefix='dense-online:')
+        _kernel_pair(rep, col, 'dense-online', don.visitor.module.rel, 'TimedOnce', 'TimedHistorically')
+        # which segments are emitted now and which are carried over is not summarised: the two partners must treat it alike
+        da, db = mirror.unread_self_attrs(ix, ca), mirror.unread_self_attrs(ix, cb)
+        for meth in ('__init__', 'reset', 'update'):
+            fa, fb = ca.methods.get(meth), cb.methods.get(meth)
+            if fa is not None and fb is not None:
+                if meth == 'update':
+                    # the merge step is decided semantically above: only the rest of update() is compared
+                    fa, fb = _without_step(fa), _without_step(fb)
+                mirror.compare_functions(rep, 'R-MIRROR', fa, fb, 'dense-online:TimedOnce~TimedHistorically:%s' % meth, drop_a=da, drop_b=db, sort_init=(meth == '__init__'))
+    rep.floor('dual pairs decided', npairs, 12)
+    # implies = or o (not x id); since/until expansion -- on the operator summaries
     for label, sums, where in (('discrete-offline', offsum, off.visitor.module.rel), ('discrete-online', onsum, on.visitor.module.rel)):
         laws(rep, label, sums, where)
     dsum = dense_summaries(ix, rep, mons)
     for label, sums in dsum.items():
         laws(rep, label, sums, mons[label].visitor.module.rel, dense=True)
     explanation = (
-        'Duality by construction: for each of the pairs once/historically, eventually/always (untimed and bounded) in all four monitors -- '
-        'visitor handlers, the helper functions they forward to, and the __init__/reset/update of the online operation classes -- the second '
-        'partner must equal, after normalisation (dead pure locals and never-read attributes removed, commutative min/max arguments sorted, '
-        'alpha-renaming), the dual image of the first: min<->max, +inf<->-inf, and order comparisons flipped exactly where an operand is a '
-        'robustness value (small type inference over [time,value] pairs and (start,end,value) triples). This covers the sliding-window and '
-        'deque implementations that the operator summaries do not. If hist = dual(once) syntactically then not once p == hist not p, because '
-        'negation is an order-reversing involution commuting with selection. Expansion laws are read off the operator summaries: implies = '
-        'max(neg l, r) = or o (not x id); since is the forward scan out = max(r, min(l, st)), st\' = out, init -inf, i.e. q or (p and s_prev(self)); '
-        'until symmetrically backward.')
-    assumptions = ['sufficient condition: a one-sided behaviour-preserving rewrite of one partner is reported as "mirror broken"',
-                   'eventually[a,b] eventually[c,d] == eventually[a+c,b+d] is window arithmetic and not decided']
-    return explanation, assumptions, 'one instance per mirror pair and method, per law and monitor', {'exhaustive': True}
+        'Duality on the semantic summaries. For the pairs once/historically and eventually/always in all four monitors the operator summary of '
+        'the second partner (scan direction, initial state, step; window of offsets with its fill values) must equal the dual image -- min<->max, '
+        '+inf<->-inf -- of the first; then not X p == Y not p because negation is an order-reversing involution that commutes with selection. '
+        'Bounded pairs in discrete time: both index windows are derived symbolically (R-WINDOW) and equal reference windows that are dual to each '
+        'other (re-validated on every run). Bounded pairs in dense time: both sliding-window kernels satisfy the merge-step contract with opposite '
+        'dominance (R-SEGSTEP), build the same influence interval (R-SEGBUILD) and emit alike (R-SEGOUT). Only where no summary exists -- which '
+        'segments the dense-time online once[a,b]/historically[a,b] emit now and which they carry over -- the partners are compared syntactically '
+        '(R-MIRROR: after normalisation the second must be the dual image of the first). Classes no monitor constructs are not compared. Expansion '
+        'laws are read off the summaries: implies = max(neg l, r) = or o (not x id); since is the forward scan out = max(r, min(l, st)), init -inf, '
+        'i.e. q or (p and s_prev(self)); until symmetrically backward. eventually[a,b] eventually[c,d] = eventually[a+c,b+d] (and once) follows '
+        'from R-WINDOW by a hand lemma: the sumset of two integer intervals is the interval of the sums, and the fill value is neutral.')
+    assumptions = ['R-MIRROR on the dense-time online carry-over is a sufficient condition: a one-sided behaviour-preserving rewrite of that part would be reported',
+                   'hand lemma for the nesting law (DESIGN.md); dense-time nesting law not decided']
+    return explanation, assumptions, 'one instance per dual pair and monitor, per law and monitor', {'exhaustive': True}
+
+
+class _FuncView(object):
+    """a FuncInfo whose body lacks the sample loop"""
+    def __init__(self, f, node):
+        self._f = f
+        self.node = node
+
+    def __getattr__(self, k):
+        return getattr(self._f, k)
+
+
+def _without_step(f):
+    import ast
+    import copy
+    try:
+        info = SS.find_step(f.node)
+    except SS.Shape:
+        return f
+    node = copy.deepcopy(f.node)
+    info2 = SS.find_step(node)
+    loop = info2['loop']
+
+    class T(ast.NodeTransformer):
+        def visit_While(self, n):
+            if n is loop:
+                return ast.Pass()
+            return self.generic_visit(n)
+
+        def visit_For(self, n):
+            if n is loop:
+                return ast.Pass()
+            return self.generic_visit(n)
+    T().visit(node)
+    return _FuncView(f, node)
+
+
+def _window_pairs(rep, col, label, where):
+    n = 0
+    bad = {}
+    for (rule, rel, sym, slot, msg, line) in col.fails:
+        bad[slot.split(':')[-1]] = (rel, sym, msg, line)
+    done = {s[3].split(':')[-1] for s in col.oks}
+    for e in col.errors:
+        rep.error(e)
+    for a, b in TIMED:
+        if a not in done and a not in bad and b not in done and b not in bad:
+            continue
+        n += 1
+        slot = '%s:%s~%s' % (label, a, b)
+        probs = [(x, bad[x]) for x in (a, b) if x in bad]
+        if probs:
+            for x, (rel, sym, msg, line) in probs:
+                rep.fail('R-DUAL', rel, sym, slot + ':' + x, 'the pair %s/%s is not dual: %s' % (a, b, msg), line)
+        elif a in done and b in done:
+            rep.ok('R-DUAL', where, label, slot, 'both windows equal their (mutually dual) reference windows', None)
+    return n
+
+
+def _kernel_pair(rep, col, label, where, a, b):
+    for e in col.errors:
+        rep.error(e)
+    slot = '%s:%s~%s' % (label, a, b)
+    if col.fails:
+        for (rule, rel, sym, s2, msg, line) in col.fails[:4]:
+            rep.fail('R-DUAL', rel, sym, '%s:%s' % (slot, s2), 'the pair %s/%s is not dual: [%s] %s' % (a, b, rule, msg), line)
+    elif not col.errors:
+        rep.ok('R-DUAL', where, label, slot, 'both kernels meet the merge-step, influence-interval and emission contracts with opposite dominance (%d obligations)' % len(col.oks), None)
 
 
 def laws(rep, label, sums, where, dense=False):
